@@ -137,15 +137,18 @@ def stripZerosRev : List Char → List Char
 def padLeft (s : String) (n : Nat) (c : Char) : String :=
   String.ofList (List.replicate (n - s.length) c) ++ s
 
-/-- Python `format(x, ".7g")` for an exact non-negative rational -/
-def fmtG7Pos (x : Rat) : String :=
-  if x == 0 then "0" else
+/-- the seven significant digits and the decimal exponent of a positive rational: `x ≈ n · 10^(e-6)` with `10^6 ≤ n < 10^7`,
+    `n` the nearest integer to `x · 10^(6-e)` (ties to even), one digit passed up when rounding reaches `10^7` -/
+def sig7 (x : Rat) : Nat × Int :=
   let e := floorLog10 x
-  -- 7 significant digits: n = round(x * 10^(6-e))
   let sc : Int := 6 - e
   let scaled : Rat := if sc ≥ 0 then x * (pow10 sc.toNat : Rat) else x / (pow10 (-sc).toNat : Rat)
   let n0 := roundHalfEven scaled
-  let (n, e) := if n0 ≥ 10000000 then (n0 / 10, e + 1) else (n0, e)
+  if n0 ≥ 10000000 then (n0 / 10, e + 1) else (n0, e)
+
+/-- the `%g` layout of seven significant digits `n` with decimal exponent `e`: scientific notation below `1e-4` and from
+    `1e7` on, else positional; trailing zeros and a trailing point removed -/
+def renderSig7 (n : Nat) (e : Int) : String :=
   let digs := (toString n).toList     -- exactly 7 digits
   if e < -4 || e ≥ 7 then
     -- scientific
@@ -162,6 +165,12 @@ def fmtG7Pos (x : Rat) : String :=
     let lead := List.replicate ((-e).toNat - 1) '0'
     let fp := (stripZerosRev digs.reverse).reverse
     String.ofList ('0' :: '.' :: (lead ++ fp))
+
+/-- Python `format(x, ".7g")` for an exact non-negative rational -/
+def fmtG7Pos (x : Rat) : String :=
+  if x == 0 then "0" else
+  let (n, e) := sig7 x
+  renderSig7 n e
 
 def fmtG7 (x : Rat) : String :=
   if x < 0 then "-" ++ fmtG7Pos (-x) else fmtG7Pos x
